@@ -502,7 +502,8 @@ class C09(P.Property):
         with os.fdopen(fd, "w") as f:
             json.dump(job, f)
         env = dict(os.environ, SSESIM_HOME=world.scratch_root(), HOME=world.scratch_root(),
-                   PYTHONHASHSEED=str(1 + core.h64(plan["seed"], "hashseed") % 1000003))
+                   PYTHONHASHSEED=str(1 + core.h64(plan["seed"], "hashseed") % 1000003),
+                   SSESIM_IMPORT_SEED=str(core.h64(plan["seed"], "import-time-randomness")))
         rp = subprocess.run([sys.executable, "-u", "-m", "ssesim.phase2", jpath], env=env, capture_output=True, text=True, timeout=300)
         os.unlink(jpath)
         line = next((ln for ln in rp.stdout.splitlines() if ln.startswith("PHASE2-RESULT ")), None)
